@@ -175,6 +175,22 @@ def check_case(rec, case):
         _CUR.clear()
         if not o.ok:
             report_failure(rec, o, name)
+            continue
+        if case.get('requery') and len(R[0]) >= 2:
+            # the same OBJECT, changed in place (acceptance of one state, one move), minimised again: judged by
+            # the contract against its current content (a per-object cache would answer for the old automaton)
+            q = sorted(D.Q)[-1]
+            D.F ^= {q}
+            if D.Sigma:
+                a0 = sorted(D.Sigma)[0]
+                D.delta[(sorted(D.Q)[0], a0)] = q
+            R2 = adapt.dfa_ref(D)
+            _CUR['R'] = R2
+            _CUR['mn'] = fa.moore_classes(R2, R2[0])
+            o = call(getattr(da, name), D)
+            _CUR.clear()
+            if not o.ok:
+                report_failure(rec, o, name, after_in_place_change=True)
 
 
 def gen_cases(rec, rng, tier):
@@ -197,7 +213,7 @@ def gen_cases(rec, rng, tier):
         n = rng.randint(2, 8)
         k = rng.randint(1, 3)
         R = fag.maybe_digits(rng, rng.choice([fag.random_dfa, fag.random_connected_dfa])(rng, n, k, p_final=rng.choice([0.2, 0.5, 0.8])))
-        yield {'cls': 'random_dfa', 'ref': R, 'iso': h64(R)}
+        yield {'cls': 'random_dfa', 'ref': R, 'iso': h64(R), 'requery': True}
         for _ in range(8 if thorough else 3):
             yield {'cls': 'random_dfa_renamed', 'ref': fag.random_renaming(rng, R), 'iso': h64(R)}
     # blown-up DFAs: product of a small DFA with a counter -> many equivalent states
